@@ -36,6 +36,10 @@ mut('c01-decode-flag-mask', 'C01', 'src/codec/zmq_codec.rs', "long: (flags & 0b0
 mut('c01-greeting-sig', 'C01', 'src/codec/greeting.rs', "data[9] = 0x7f;", "data[8] = 0x7f;", kani=True, note='signature terminator at the wrong offset (Kani greeting_ser)')
 mut('c01-greeting-parse-offset', 'C01', 'src/codec/greeting.rs', "as_server: value[32] == 0x01,", "as_server: value[31] == 0x01,")
 mut('c01-cmd-value-len', 'C01', 'src/codec/command.rs', "            if buf.len() < 4 {\n                return Err(CodecError::Decode(\"Invalid property value\"));\n            }\n            let prop_val_len = buf.get_u32() as usize;", "            if buf.len() < 2 {\n                return Err(CodecError::Decode(\"Invalid property value\"));\n            }\n            let prop_val_len = buf.get_u16() as usize;", expect='any-nonzero', note='value-size read as 2 octets: unsupported get_u16 -> undecided is acceptable, exit 0 is not')
+mut('c01-ready-long-size', 'C01', 'src/codec/command.rs', "            bytes.put_u64(message_len as u64);", "            bytes.put_u32(message_len as u32);", note='long READY (identity > ~220 octets) gets a 4 octet size')
+mut('c01-ready-long-flag', 'C01', 'src/codec/command.rs', "            bytes.put_u8(0x06);", "            bytes.put_u8(0x04);", note='long READY flagged as short')
+mut('c01-ready-len-count', 'C01', 'src/codec/command.rs', "            message_len += val.len() + 4;", "            message_len += val.len() + 2;", note='size field two octets short per property')
+mut('c01-ready-threshold', 'C01', 'src/codec/command.rs', "        let long_message = message_len > 255;", "        let long_message = message_len > 256;", note='256 octet READY body with a one octet size')
 # ---------------------------------------------------------------- C02 segmentation
 mut('c02-lose-partial', 'C02', 'src/codec/zmq_codec.rs', "                        Some(v) => v.push_back(data.freeze()),", "                        Some(v) => *v = ZmqMessage::from(data.freeze()),", note='earlier frames of a multipart message are dropped')
 mut('c02-state-not-saved', 'C02', 'src/codec/zmq_codec.rs', "                    self.state = DecoderState::FrameLen(frame);\n", "", note='header consumed but state not advanced: depends on whether the length is in the same read')
